@@ -272,6 +272,10 @@ def run(model: RepoModel, rep, tier: str):
     from . import c05
     c05._r5(model, rep, "C12.R3")
     c05._r7(model, rep, "C12.R4")
+    # renaming a parameter renames the keyword at its call sites: the pairing of keyword values with parameter names must not depend
+    # on the spelling of the names beyond their agreed (sorted) order at both ends (shared with C07.R4)
+    from .c07 import _r4_keyword_order
+    _r4_keyword_order(model, rep, "C12.R5")
 
 
 # ---------------------------------------------------------------- self-test mutants
